@@ -234,6 +234,23 @@ func runAOFCrash(t *testing.T, prop string, seed uint64, tier string, replay *hc
 						if len(w.Data) > 1 {
 							check(sn.fs.ZeroRange(w.Path, int(w.Off)+len(w.Data)/2, len(w.Data)-len(w.Data)/2), fmt.Sprintf("power loss after operation %d in which the second half of unsynced write #%d was lost", sn.ops, wi), 0, sn.ops, true)
 						}
+						// garbled bytes: the write has its full length, a few bytes inside it are not what was written
+						// (every position of short writes, a stride through long ones)
+						stride := 1
+						if len(w.Data) > 160 {
+							stride = len(w.Data) / 160
+						}
+						for pos := 0; pos < len(w.Data); pos += stride {
+							simrt.Probe("garbled-image")
+							patch := []byte{w.Data[pos] ^ 0x20}
+							if pos%3 == 0 && pos+1 < len(w.Data) {
+								patch = []byte{w.Data[pos] ^ 0xff, w.Data[pos+1] ^ 0x01}
+							}
+							check(sn.fs.PatchRange(w.Path, int(w.Off)+pos, patch), fmt.Sprintf("power loss after operation %d in which byte %d of unsynced write #%d (%d bytes at offset %d of %s) was garbled", sn.ops, pos, wi, len(w.Data), w.Off, filepath.Base(w.Path)), 0, sn.ops, true)
+							if len(res.Violations) > 0 {
+								return
+							}
+						}
 						if len(res.Violations) > 0 {
 							return
 						}
